@@ -14,19 +14,19 @@
    It is FALSE of the faithful model (C05_removed_on_time_refuted; the simulated daemon agrees).
    After the repairs of rounds 2 and 3 (SRV expiry and loss of the last address reported under
    every PTR name, host names compared without regard to case) the known findings that stay
-   (known/C05.json) are: PTR variants differing in the cache-flush bit, and expiry during the
-   PTR's goodbye second.  No hash-order dependent behaviour is left in the histories generated.
+   (known/C05.json) are: PTR variants differing in the cache-flush bit, expiry during the PTR's
+   goodbye second, and (found in round 4) a second SRV record naming another host.  No hash-order dependent behaviour is left in the histories generated.
    The former witnesses of the repaired two-names defects are now examples that pass
    (C05_example_two_names, C05_example_two_names_address).  Proved here, for all
    caches and times: what the evictions do exactly, when an instance is reported and under
    which names, where every ServiceRemoved comes from, the goodbye second, verify (_partial:
-   the history-level statement outside the two classes is checked by the monitor on every
+   the history-level statement outside the three classes is checked by the monitor on every
    generated history:
        forall ifs h wakes, wf_history h = true -> ~ Known_C05 h ->
          chk_C05 ifs h wakes (map obs_of (run_history ifs h)) = true ). *)
 From Coq Require Import List NArith Bool.
-From Mdns Require Import Res Bytes Rec Wire Txt Cache Browser C03Spec BrowserSpec CacheProofs BrowserStepProofs
-  SpecTrackProofs BrowserExamples.
+From Mdns Require Import Res Bytes Rec Wire Txt Cache Browser C03Spec BrowserSpec BrowserKnown CacheProofs
+  CacheInvProofs BrowserProofs BrowserStepProofs SpecTrackProofs C05SafetyProofs BrowserExamples.
 Import ListNotations.
 Open Scope N_scope.
 
@@ -129,6 +129,75 @@ Theorem C05_spec_cache_is_model_cache : forall ifs h,
   tracks (model_after ifs init_st h) (spec_after ifs init_spec h).
 Proof. exact spec_tracks_model. Qed.
 
+(* ---- history level (round 4) ----------------------------------------------------------------------
+
+   The standard shape for known findings,
+       forall ifs h wakes, wf_history h = true -> ~ KnownClass h ->
+         viol_C05 ifs h wakes (map obs_of (run_history ifs h)) = []                       (full)
+   is proved for the SAFETY part of the checker: of the five kinds of failure viol_C05 can report
+   (F_len, F05_alive, F05_again, F05_dead, F05_wake) the kind F05_alive - "ServiceRemoved while the
+   instance has a PTR under that type, an SRV and an address of the SRV's host with more than one
+   second left at every snapshot of the iteration" - never occurs on the model's own trace, for
+   every well-formed history outside the executable classes known_ptr_variant (finding
+   C05-ptr-variant-expiry) and known_srv_targets (finding C05-second-srv-target, found by this
+   proof) whose PTR records have non-root owner and target (safe_class, Model/BrowserKnown.v).
+   The proof carries the C03 cache invariant and `tracks` (spec cache = model cache) through
+   every step of the loop iteration and shows at each of the three emission sites that the cache
+   of that moment - one of the checker's snapshots - is not strongly alive for the instance.
+   _partial: NOT proved at history level are F05_dead (timeliness: an instance reported resolved
+   is weakly alive at the end of every iteration; needs an invariant tying the checker's "up"
+   list to the model's `resolved` set and the order of events inside an iteration; further
+   classes to exclude: C05-expiry-hidden-by-expiring-ptr and stop_browse of a second PTR name
+   of an instance), F05_again (needs: liveness only decreases without a delivery of a record of
+   the instance, fresh channel numbers) and F05_wake (the model does not compute timers; the
+   wake-ups are an input of the checker).  They stay monitor-checked on every generated history. *)
+Theorem C05_removed_only_when_true_partial : forall ifs h wakes,
+  wf_history h = true -> safe_class ifs h = true ->
+  forall f, In f (viol_C05 ifs h wakes (map obs_of (run_history ifs h))) -> is_alive_fail f = false.
+Proof. exact removed_only_when_true. Qed.
+
+(* the same fact for one loop iteration from ANY state whose cache satisfies the C03 invariant
+   for a log inside a class-free log Lf: every ServiceRemoved of the iteration comes with a
+   snapshot (after a datagram / after the commands / after the eviction) that is not strongly
+   alive *)
+Theorem C05_iteration_removed_only_when_true : forall Lf,
+  known_ptr_variant Lf = false -> known_srv_targets Lf = false -> ptr_names_ok Lf = true ->
+  forall ifs prev s sp it,
+  Inv prev (s_cache s) -> times_le prev (i_now it) -> tracks s sp ->
+  incl (prev ++ iter_dlvs ifs it) Lf ->
+  let '(ds, sp2, sp3) := iter_snaps ifs sp it in
+  Forall (rmok (ds ++ [sp2; sp3]) (i_now it)) (snd (iterate ifs s it)).
+Proof. exact iterate_rmok. Qed.
+
+(* non-vacuity: a well-formed history in the safe class whose trace contains a ServiceRemoved *)
+Example C05_safe_class_example :
+  wf_history ex_hist = true /\ safe_class ex_ifs ex_hist = true
+  /\ existsb (existsb is_removed_evt) (run_history ex_ifs ex_hist) = true.
+Proof. exact safe_example. Qed.
+
+(* one witness per known class: the class predicate holds and the checker fails *)
+Theorem C05_known_ptr_variant_witness :
+  known_ptr_variant (log_of_history ex_ifs ref5_hist) = true
+  /\ existsb is_alive_fail (viol_C05 ex_ifs ref5_hist (ex_wakes ref5_hist) (map obs_of (run_history ex_ifs ref5_hist))) = true.
+Proof. exact ptr_variant_witness. Qed.
+
+Theorem C05_known_srv_targets_witness :
+  wf_history srvtgt_hist = true
+  /\ known_srv_targets (log_of_history ex_ifs srvtgt_hist) = true
+  /\ known_ptr_variant (log_of_history ex_ifs srvtgt_hist) = false
+  /\ existsb is_alive_fail (viol_C05 ex_ifs srvtgt_hist (ex_wakes srvtgt_hist) (map obs_of (run_history ex_ifs srvtgt_hist))) = true
+  /\ chk_C04 ex_ifs srvtgt_hist (ex_wakes srvtgt_hist) (map obs_of (run_history ex_ifs srvtgt_hist)) = false.
+Proof. exact srv_targets_witness. Qed.
+
+(* C05-expiry-hidden-by-expiring-ptr: inside the safe class, the timeliness part fails with the
+   flag "every PTR of the instance is in its last second" *)
+Theorem C05_known_ptr_last_second_witness :
+  wf_history ptrlast_hist = true
+  /\ safe_class ex_ifs ptrlast_hist = true
+  /\ map (fun o => existsb is_removed_evt o) (run_history ex_ifs ptrlast_hist) = [false; false; false; false; true]
+  /\ existsb is_dead_last_second (viol_C05 ex_ifs ptrlast_hist (ex_wakes ptrlast_hist) (map obs_of (run_history ex_ifs ptrlast_hist))) = true.
+Proof. exact ptr_last_second_witness. Qed.
+
 (* The history-level statement is false of the faithful model: the PTR is delivered a second
    time with the cache-flush bit and TTL 2 s; ServiceRemoved at +2 s although the first PTR, the
    SRV and the address are live (finding C05-ptr-variant-expiry). *)
@@ -175,6 +244,12 @@ Print Assumptions C05_verify_min.
 Print Assumptions C05_verify_questions.
 Print Assumptions C05_answer_restores.
 Print Assumptions C05_spec_cache_is_model_cache.
+Print Assumptions C05_removed_only_when_true_partial.
+Print Assumptions C05_iteration_removed_only_when_true.
+Print Assumptions C05_safe_class_example.
+Print Assumptions C05_known_ptr_variant_witness.
+Print Assumptions C05_known_srv_targets_witness.
+Print Assumptions C05_known_ptr_last_second_witness.
 Print Assumptions C05_removed_on_time_refuted.
 Print Assumptions C05_example.
 Print Assumptions C05_example_two_names.
